@@ -1,11 +1,20 @@
 package c10
 
 import (
+	"bufio"
+	"crypto/sha1"
+	"encoding/hex"
+	"encoding/json"
 	"fmt"
 	"os"
+	"os/exec"
 	"path/filepath"
+	"regexp"
+	"regexp/syntax"
 	"sort"
+	"strconv"
 	"strings"
+	"sync"
 
 	"verif/harness/internal/hx"
 )
@@ -154,7 +163,9 @@ type savedPred struct {
 }
 
 type runner struct {
-	prev []savedPred
+	cases *bufio.Writer     // worker mode: hashes of the non-trivial case keys
+	ksig  map[string]string // cache key of a regex atom -> its matcher tables (KeySound check)
+	prev  []savedPred
 	c    *hx.Ctx
 	r    *hx.Rng
 	h    *history
@@ -165,6 +176,31 @@ type runner struct {
 }
 
 func (rn *runner) emit(op, ans string) int { return rn.c.Emit(op, ans) }
+
+func (rn *runner) caseOf(key string, nontrivial bool) {
+	rn.c.Case(key, nontrivial)
+	if nontrivial && rn.cases != nil {
+		h := sha1.Sum([]byte(key))
+		rn.cases.WriteString(hex.EncodeToString(h[:10]) + "\n")
+	}
+}
+
+// keySound: two regex atoms that share a tag-filter cache key must have the same derived matcher
+// (hypothesis KeySound of the Lean theorems, measured here on every generated atom).
+func (rn *runner) keySound(line int, mst string, res []*reAtom) {
+	for _, at := range res {
+		k := fmt.Sprintf("%s\x00%s\x00%v\x00%s", mst, at.key, at.tfLiteral, at.value)
+		var sb strings.Builder
+		fmt.Fprintf(&sb, "%v", at.matchEmpty)
+		for _, r := range at.rows {
+			fmt.Fprintf(&sb, ";%s/%v", r.val, r.tf)
+		}
+		if old, ok := rn.ksig[k]; ok && old != sb.String() {
+			rn.c.Violation(line, "", fmt.Sprintf("regex atoms with the same tag filter cache key (%q, literal=%v) have different matchers: /%s/", at.value, at.tfLiteral, at.text))
+		}
+		rn.ksig[k] = sb.String()
+	}
+}
 
 func errText(perr string, err error) string {
 	if perr != "" {
@@ -356,7 +392,7 @@ func (rn *runner) searchWith(kind string, mi int, p *pnode, res []*reAtom) {
 	if perr != "" || err != nil {
 		line := rn.emit(op, errText(perr, err))
 		rn.c.Violation(line, "", "search failed: "+errText(perr, err))
-		rn.c.Case(op, true)
+		rn.caseOf(op, true)
 		return
 	}
 	lower, upper := rn.sp.expected(mi, p)
@@ -468,9 +504,20 @@ func (rn *runner) searchWith(kind string, mi int, p *pnode, res []*reAtom) {
 		}
 	}
 	nontrivial := neg || emptyVal || regex || rn.reop
-	rn.c.Case(op, nontrivial)
+	rn.caseOf(op, nontrivial)
+	rn.keySound(line, mst, res)
 	if bad != "" {
 		desc := fmt.Sprintf("%s %q: %s; expected%s got%s", kind, mst, bad, setText(lower), idsText("", ids))
+		// the regex findings can only move live series of this measurement in or out of the answer
+		for id := range got {
+			si, issued := rn.sp.owner[id]
+			if !issued || rn.sp.deleted[id] || rn.h.univ[si].mst != mi {
+				class = ""
+			}
+		}
+		if len(got) != len(ids) {
+			class = ""
+		}
 		if class != "" {
 			desc += "; " + why
 		}
@@ -480,6 +527,97 @@ func (rn *runner) searchWith(kind string, mi int, p *pnode, res []*reAtom) {
 	}
 	if nontrivial && len(lower) > 0 && len(lower) < len(rn.sp.owner) {
 		rn.c.Sample(op + " => " + idsText("ids", ids))
+	}
+}
+
+// probePred: a predicate that series s satisfies, built around one of its tags; with orSuffix a
+// regex the tag filter answers through its or-suffix lookup.
+func (rn *runner) probePred(mst string, s *seriesT, orSuffix bool) (*pnode, []*reAtom, bool) {
+	if len(s.tags) == 0 {
+		return nil, nil, false
+	}
+	t := s.tags[rn.r.Intn(len(s.tags))]
+	var res []*reAtom
+	var p *pnode
+	if orSuffix && regexSafe(t.v) {
+		text := "^(" + regexp.QuoteMeta(t.v) + "|zz9)$"
+		if rn.r.Bool() {
+			text = regexp.QuoteMeta(t.v) + "|zz9"
+		}
+		at := &reAtom{text: text, re: regexp.MustCompile(text), key: t.k}
+		if sre, err := syntax.Parse(text, syntax.Perl); err == nil {
+			at.anchored = hasAnchor(sre)
+		}
+		res = append(res, at)
+		p = &pnode{kind: '~', key: t.k, re: at}
+	} else {
+		p = &pnode{kind: '=', key: t.k, val: t.v}
+	}
+	if rn.r.Chance(40) {
+		other := genPred(rn.r, rn.h, 1, false, &res, 50)
+		if rn.r.Bool() {
+			p = &pnode{kind: '|', l: p, r: other}
+		} else {
+			p = &pnode{kind: '|', l: other, r: p}
+		}
+	}
+	ok := true
+	p.walk(func(n *pnode) {
+		if n.re != nil && fillRegex(rn.h, mst, n.re, n.kind == '^') != nil {
+			ok = false
+		}
+	})
+	return p, res, ok
+}
+
+// cacheProbe: search, write a series the predicate selects, flush, search again (cache_coherent).
+func (rn *runner) cacheProbe() {
+	si := rn.r.Intn(len(rn.h.univ))
+	s := &rn.h.univ[si]
+	mst := rn.h.msts[s.mst]
+	p, res, ok := rn.probePred(mst, s, rn.r.Chance(30))
+	if !ok {
+		return
+	}
+	rn.c.Count("macro:cache-probe")
+	rn.searchWith("sel", s.mst, p, res)
+	rn.opInsert(si)
+	rn.simple("flush", func() error { rn.e.main.idx.DebugFlush(); return nil }, rn.sp.flush)
+	rn.searchWith("sel", s.mst, p, res)
+	if rn.r.Bool() {
+		rn.searchWith("show", s.mst, p, res)
+	}
+}
+
+// deleteProbe: search, delete a series the predicate selects, search again on both paths.
+func (rn *runner) deleteProbe() {
+	var cands []int
+	for si, id := range rn.sp.live {
+		if rn.sp.visible[id] {
+			cands = append(cands, si)
+		}
+	}
+	if len(cands) == 0 {
+		return
+	}
+	sort.Ints(cands)
+	si := cands[rn.r.Intn(len(cands))]
+	s := &rn.h.univ[si]
+	mst := rn.h.msts[s.mst]
+	p, res, ok := rn.probePred(mst, s, rn.r.Chance(60))
+	if !ok || len(s.tags) == 0 {
+		return
+	}
+	rn.c.Count("macro:delete-probe")
+	rn.searchWith("sel", s.mst, p, res)
+	t := s.tags[rn.r.Intn(len(s.tags))]
+	rn.deleteWith(s.mst, &pnode{kind: '=', key: t.k, val: t.v}, nil)
+	rn.searchWith("sel", s.mst, p, res)
+	rn.searchWith("show", s.mst, p, res)
+	if rn.r.Bool() {
+		rn.opInsert(si)
+		rn.simple("flush", func() error { rn.e.main.idx.DebugFlush(); return nil }, rn.sp.flush)
+		rn.searchWith("sel", s.mst, p, res)
 	}
 }
 
@@ -522,7 +660,7 @@ func (rn *runner) opTagVals() {
 	for _, v := range vals {
 		got[v] = true
 	}
-	rn.c.Case(op, p != nil || rn.reop)
+	rn.caseOf(op, p != nil || rn.reop)
 	for v := range lo {
 		if !got[v] {
 			rn.c.Violation(line, "", fmt.Sprintf("tag values of %q.%q miss %q", mst, key, v))
@@ -593,6 +731,7 @@ func (rn *runner) withEnv(tag string, body func()) {
 	rn.sp = newSpec(rn.h)
 	rn.reop, rn.dead = false, false
 	rn.prev = nil
+	rn.ksig = map[string]string{}
 	root := os.Getenv("VERIF_SCRATCH")
 	if root == "" {
 		root = "/var/tmp/c10-harness"
@@ -660,7 +799,11 @@ func (rn *runner) runOps(nOps int, big bool) {
 			rn.opDelete()
 		case x < 54:
 			rn.simple("sib", rn.e.sibling, nil)
-		case x < 70:
+		case x < 57:
+			rn.cacheProbe()
+		case x < 59:
+			rn.deleteProbe()
+		case x < 72:
 			rn.opSearch("show")
 		case x < 86:
 			rn.opSearch("sel")
@@ -674,8 +817,11 @@ func (rn *runner) runOps(nOps int, big bool) {
 
 func Run(c *hx.Ctx) error {
 	initProcess()
-	c.Stats.Rule = "index histories on the real MergeSetIndex: 3-14 series (1% with 70-100) over 1-3 measurements and 3-6 tag keys from four alphabets (shared prefixes; commas, equals, spaces, separator bytes 0-2, unicode, quotes; regex metacharacters), interleaved insert / lookup / flush / cache clear / close-reopen / restart (sequence reseeded) / delete / unrelated sibling index, predicate trees to depth 4 over =, !=, =~, !~, AND, OR, parentheses on the show-series path, the select path, series-key and tag-value listings; a search is non-trivial when its predicate has a negation, an empty-value match or a regex, or a reopen/restart precedes it; distinct by op line"
-	nHist := c.Budget(300, 5000)
+	c.Stats.Rule = "index histories on the real MergeSetIndex: 6 hand-written histories (minimised inputs of the repaired defects, cost-triggered pruning) then generated ones: 3-14 series (20% with 16-40, 1% with 70-100) over 1-3 measurements and 3-6 tag keys from four alphabets (shared prefixes; commas, equals, spaces, separator bytes 0-2, unicode, quotes; regex metacharacters), interleaved insert / lookup / flush / cache clear / close-reopen / restart after 0-100 s (sequence reseeded) / delete / unrelated sibling index, predicate trees to depth 4 over =, !=, =~, !~, AND, OR, parentheses (25% all-AND, 25% repeated) on the show-series path, the select path, series-key and tag-value listings; a search is non-trivial when its predicate has a negation, an empty-value match or a regex, or a reopen/restart precedes it; distinct by op line"
+	c.Stats.Notes = append(c.Stats.Notes,
+		"search results are specified over flushed series (lower bound) and flushed+pending series (upper bound): the table makes raw items searchable only after a flush; the harness stops the periodic flusher and flushes explicitly",
+		"empty tag keys/values are dropped before the insert, as the line-protocol parser does")
+	nHist := c.Budget(300, 4000)
 	nOps := 30
 	if c.Tier == "thorough" {
 		nOps = 100
@@ -683,12 +829,29 @@ func Run(c *hx.Ctx) error {
 	if v := c.Arg("ops", ""); v != "" {
 		fmt.Sscanf(v, "%d", &nOps)
 	}
-	rn := &runner{c: c}
 	only := -1
 	if v := c.Arg("only", ""); v != "" {
 		fmt.Sscanf(v, "%d", &only)
 	}
-	if only < 0 {
+	workers, _ := strconv.Atoi(c.Arg("workers", "1"))
+	worker := -1
+	if v := c.Arg("worker", ""); v != "" {
+		worker, _ = strconv.Atoi(v)
+	}
+	if workers > 1 && worker < 0 && only < 0 {
+		return runParallel(c, workers, nHist, nOps)
+	}
+	rn := &runner{c: c}
+	if worker >= 0 {
+		f, err := os.Create(filepath.Join(c.Out, "cases.txt"))
+		if err != nil {
+			return err
+		}
+		defer f.Close()
+		rn.cases = bufio.NewWriter(f)
+		defer rn.cases.Flush()
+	}
+	if only < 0 && worker <= 0 {
 		rn.r = hx.NewRng(c.Seed)
 		for i := range directed {
 			rn.runDirected(i)
@@ -696,6 +859,9 @@ func Run(c *hx.Ctx) error {
 	}
 	for hi := 0; hi < nHist; hi++ {
 		if only >= 0 && hi != only {
+			continue
+		}
+		if worker >= 0 && hi%workers != worker {
 			continue
 		}
 		// one PRNG per history: a history replays alone with -D only=<index>
@@ -707,8 +873,105 @@ func Run(c *hx.Ctx) error {
 		}
 		rn.runHistory(hi, n, big)
 	}
-	c.Stats.Notes = append(c.Stats.Notes,
-		"search results are specified over flushed series (lower bound) and flushed+pending series (upper bound): the table makes raw items searchable only after a flush; the harness stops the periodic flusher and flushes explicitly",
-		"empty tag keys/values are dropped before the insert, as the line-protocol parser does")
 	return nil
+}
+
+// runParallel runs the histories in `workers` child processes (the index code keeps process-wide
+// state: tag-filter cache generation, pools, regexp caches — histories of one process run one
+// after the other) and merges their outputs in worker order.
+func runParallel(c *hx.Ctx, workers, nHist, nOps int) error {
+	exe, err := os.Executable()
+	if err != nil {
+		return err
+	}
+	var wg sync.WaitGroup
+	errs := make([]error, workers)
+	for k := 0; k < workers; k++ {
+		wg.Add(1)
+		go func(k int) {
+			defer wg.Done()
+			out := filepath.Join(c.Out, fmt.Sprintf("w%d", k))
+			cmd := exec.Command(exe, "C10", "-seed", fmt.Sprint(c.Seed), "-tier", c.Tier, "-n", fmt.Sprint(nHist), "-out", out,
+				"-D", fmt.Sprintf("worker=%d", k), "-D", fmt.Sprintf("workers=%d", workers), "-D", fmt.Sprintf("ops=%d", nOps))
+			cmd.Env = os.Environ()
+			if b, err := cmd.CombinedOutput(); err != nil {
+				tail := string(b)
+				if len(tail) > 2000 {
+					tail = tail[len(tail)-2000:]
+				}
+				errs[k] = fmt.Errorf("worker %d: %v: %s", k, err, tail)
+			}
+		}(k)
+	}
+	wg.Wait()
+	for _, e := range errs {
+		if e != nil {
+			return e
+		}
+	}
+	seen := map[string]struct{}{}
+	evals := 0
+	for k := 0; k < workers; k++ {
+		dir := filepath.Join(c.Out, fmt.Sprintf("w%d", k))
+		ops, err := readLines(filepath.Join(dir, "ops.txt"))
+		if err != nil {
+			return err
+		}
+		impl, err := readLines(filepath.Join(dir, "impl.out"))
+		if err != nil {
+			return err
+		}
+		if len(ops) != len(impl) {
+			return fmt.Errorf("worker %d: %d ops, %d answers", k, len(ops), len(impl))
+		}
+		offset := 0
+		for i := range ops {
+			ln := c.Emit(ops[i], impl[i])
+			if i == 0 {
+				offset = ln - 1
+			}
+		}
+		viol, _ := readLines(filepath.Join(dir, "viol.out"))
+		for _, v := range viol {
+			parts := strings.SplitN(v, "\t", 3)
+			if len(parts) == 3 {
+				ln, _ := strconv.Atoi(parts[0])
+				c.Violation(ln+offset, parts[1], parts[2])
+			}
+		}
+		var st hx.Stats
+		if b, err := os.ReadFile(filepath.Join(dir, "stats.json")); err == nil && json.Unmarshal(b, &st) == nil {
+			evals += st.Evaluations
+			for h, n := range st.Hist {
+				c.Stats.Hist[h] += n
+			}
+			for _, s := range st.Samples {
+				c.Sample(s)
+			}
+		}
+		cs, _ := readLines(filepath.Join(dir, "cases.txt"))
+		for _, h := range cs {
+			seen[h] = struct{}{}
+		}
+		_ = os.RemoveAll(dir)
+	}
+	c.Stats.Evaluations = evals
+	c.Stats.DistinctNontrivial = len(seen)
+	c.Stats.Notes = append(c.Stats.Notes, fmt.Sprintf("histories ran in %d worker processes", workers))
+	return nil
+}
+
+func readLines(path string) ([]string, error) {
+	f, err := os.Open(path)
+	if err != nil {
+		return nil, err
+	}
+	defer f.Close()
+	var out []string
+	sc := bufio.NewScanner(f)
+	sc.Buffer(make([]byte, 1<<20), 1<<26)
+	for sc.Scan() {
+		out = append(out, sc.Text())
+	}
+	return out, sc.Err()
 }
